@@ -104,6 +104,24 @@ def run_case(case, ctx):
                 ctx.violation('nan_idx', desc, 'nan_idx %r != %r' % (np.asarray(m.nan_idx).tolist(), nan_idx), f)
             if m.n_clusters != int(sc.max()) + 1:
                 ctx.violation('n_clusters', desc, 'n_clusters=%r, max cluster id %d' % (m.n_clusters, sc.max()), f)
+            # the caller writes into what get_merge_map() returned; a second call must give the provenance again
+            rg = call(m.get_merge_map)
+            if rg.ok:
+                mmg, nidx = rg.value
+                for v in mmg.values():
+                    if isinstance(v, np.ndarray) and v.flags.writeable and v.size:
+                        v[...] = 0
+                    elif isinstance(v, list):
+                        del v[:]
+                if isinstance(nidx, np.ndarray) and nidx.flags.writeable and nidx.size:
+                    nidx[...] = 0
+                ctx.mon('returned_merge_map_modified')
+                rg = call(m.get_merge_map)
+                if rg.ok:
+                    got2 = {int(k): sorted(int(x) for x in v) for k, v in rg.value[0].items()}
+                    if got2 != mm or sorted(int(x) for x in np.asarray(rg.value[1]).tolist()) != nan_idx:
+                        ctx.violation('merge_map', desc, 'get_merge_map() after the caller modified an earlier result: %r / %r != %r / %r' % (
+                            got2, np.asarray(rg.value[1]).tolist(), mm, nan_idx), dict(f, after_caller_modification=True))
             D = np.asarray(m.sparse_clusters.data)
             if D.shape != (int(sc.max()) + 1, nsw, nc):
                 ctx.violation('cluster_waveform', desc, 'sparse_clusters.data shape %r' % (D.shape,), f)
